@@ -222,7 +222,11 @@ func RunShard(ch *Check, tier string, shard, nshards int, seed int64, out string
 			c.Deadline = time.Now().Add(d)
 		}
 	}
+	t0 := time.Now()
 	ch.Run(c)
+	ms := time.Since(t0).Milliseconds()
+	c.Max("max_shard_wall_ms", ms)
+	c.Count("sum_shard_wall_ms", ms)
 	b, err := json.Marshal(c.R)
 	if err != nil {
 		fmt.Fprintln(os.Stderr, "marshal:", err)
